@@ -5,6 +5,7 @@ from typing import Awaitable, Callable, Dict, List, Optional, Tuple, Type, Union
 
 import h2
 import h2.connection
+import h2.errors
 import h2.events
 import h2.exceptions
 import priority
@@ -260,6 +261,13 @@ class H2Protocol:
                     self.connection.reset_stream(event.stream_id)
                     self.connection.update_settings(
                         {h2.settings.SettingCodes.MAX_CONCURRENT_STREAMS: 0}
+                    )
+                elif not all(
+                    value.isascii() for name, value in event.headers if name == b":path"
+                ):
+                    # The path must be ASCII (RFC 3986), refuse only this stream
+                    self.connection.reset_stream(
+                        event.stream_id, h2.errors.ErrorCodes.PROTOCOL_ERROR
                     )
                 else:
                     await self._create_stream(event)
